@@ -6,6 +6,7 @@ import (
 	"bytes"
 	"fmt"
 	"log/slog"
+	"os"
 	"testing"
 
 	"github.com/slackhq/nebula/header"
@@ -22,7 +23,8 @@ import (
 // and a counter that fell out of the window before its second critical section is not delivered.
 //
 // E4 half: on the wire — A sends marked packets to B directly and through relay R; every in-flight datagram may be
-// delivered, duplicated (delivered and kept) or dropped, breadth-first; B's tun must see each marker at most once.
+// delivered, duplicated (delivered and kept) or dropped, and a hostile relay may re-wrap an already forwarded end-to-end
+// packet into a fresh authentic relay frame (up to twice), breadth-first; B's tun must see each marker at most once.
 
 type c12Fixture struct {
 	recvCS  *ConnectionState // receiver's state for the direct tunnel (template)
@@ -250,6 +252,55 @@ func TestVerifC12(t *testing.T) {
 	c.Assume("scheduling points are the sync/atomic operations of connection_state.go (decryptLock); the AEAD open between them is atomic for the scheduler")
 }
 
+// c12RelayFrames lists the relay frames R has emitted towards B so far (in emission order).
+func c12RelayFrames(net *vnet) [][]byte {
+	r, b := net.node("r"), net.node("b")
+	var out [][]byte
+	for _, w := range net.wire {
+		var h header.H
+		if h.Parse(w) == nil && h.Type == header.Message && h.Subtype == header.MessageRelay {
+			out = append(out, w)
+		}
+	}
+	// keep only those addressed to b: the inner packet of a frame a->r and of the forwarded frame r->b is the same bytes,
+	// so re-wrapping either is the same event; deduplicate by inner packet
+	seen := map[string]bool{}
+	var uniq [][]byte
+	for _, f := range out {
+		if len(f) < header.Len+16 {
+			continue
+		}
+		inner := string(f[header.Len : len(f)-16])
+		var ih header.H
+		if ih.Parse([]byte(inner)) != nil || ih.Type != header.Message || ih.Subtype != header.MessageNone {
+			continue // relayed handshake / control traffic from the set-up phase
+		}
+		if !seen[inner] {
+			seen[inner] = true
+			uniq = append(uniq, f)
+		}
+	}
+	_, _ = r, b
+	return uniq
+}
+
+// c12Rewrap makes R send the inner packet of frame towards B in a fresh relay frame (new outer counter), using R's real
+// SendVia with its real forwarding slot, and leaves it in flight.
+func c12Rewrap(net *vnet, frame []byte) {
+	r, a, b := net.node("r"), net.node("a"), net.node("b")
+	hiB := r.f.hostMap.QueryVpnAddr(b.vpnIP)
+	if hiB == nil {
+		return
+	}
+	rel, ok := hiB.relayState.QueryRelayForByIp(a.vpnIP)
+	if !ok {
+		return
+	}
+	inner := append([]byte(nil), frame[header.Len:len(frame)-16]...)
+	r.f.SendVia(hiB, rel, inner, make([]byte, 12), make([]byte, mtu), false, 0)
+	net.collect()
+}
+
 // c12Wire: BFS over delivery / duplication / drop of in-flight datagrams for marked packets sent direct and via relay.
 type c12Ev struct {
 	Kind string // deliver | dup | drop
@@ -271,6 +322,15 @@ func c12Wire(t *testing.T, c *mc.Check) (int64, int64) {
 		d.tunSend(vUDPPacket(d.vpnIP, b.vpnIP, 1, 2, []byte(markers[1]))) // direct
 		net.collect()
 		for _, ev := range hist {
+			if ev.Kind == "rewrap" {
+				// hostile relay: R wraps an end-to-end packet it has already forwarded into a FRESH authentic relay frame
+				frames := c12RelayFrames(net)
+				if ev.Idx >= len(frames) {
+					return net, false
+				}
+				c12Rewrap(net, frames[ev.Idx])
+				continue
+			}
 			if ev.Idx >= len(net.inflight) {
 				return net, false
 			}
@@ -285,6 +345,77 @@ func c12Wire(t *testing.T, c *mc.Check) (int64, int64) {
 		}
 		return net, true
 	}
+	// scripted hostile-relay histories first (cheap, always complete): the relayed packet reaches B normally and is then
+	// re-wrapped and re-delivered; or the re-wrapped copies arrive before / instead of the original forwarded frame
+	judge := func(net *vnet, hist []c12Ev) {
+		counts := map[string]int{}
+		for _, p := range net.tunLog["b"] {
+			for _, mk := range markers {
+				if bytes.Contains(p, []byte(mk)) {
+					counts[mk]++
+				}
+			}
+		}
+		for mk, n := range counts {
+			if n > 1 {
+				c.Violation("C12/wire: a replayed datagram was delivered to the tun again", map[string]any{"marker": mk, "times": n, "history": fmt.Sprint(hist)})
+			}
+		}
+	}
+	var scripted int64
+	relayIdx := func(net *vnet, toB bool) int {
+		for i, p := range net.inflight {
+			var h header.H
+			if h.Parse(p.Data) == nil && h.Subtype == header.MessageRelay && (p.To == net.node("b").udp) == toB {
+				return i
+			}
+		}
+		return -1
+	}
+	for _, script := range [][]string{
+		{"toR", "toB", "rewrap", "toB", "rewrap", "toB"},
+		{"toR", "rewrap", "toB", "toB", "rewrap", "toB"},
+		{"toR", "rewrap", "rewrap", "toB", "toB", "toB"},
+		{"toR", "dropB", "rewrap", "toB", "rewrap", "toB"},
+	} {
+		net, _ := build(nil)
+		var hist []c12Ev
+		for _, st := range script {
+			switch st {
+			case "toR":
+				if i := relayIdx(net, false); i >= 0 {
+					net.deliverAt(i, false)
+				}
+			case "toB":
+				if i := relayIdx(net, true); i >= 0 {
+					net.deliverAt(i, false)
+				}
+			case "dropB":
+				if i := relayIdx(net, true); i >= 0 {
+					net.dropAt(i)
+				}
+			case "rewrap":
+				if fr := c12RelayFrames(net); len(fr) > 0 {
+					c12Rewrap(net, fr[len(fr)-1]) // the most recent end-to-end packet = the marked one
+				}
+			}
+			hist = append(hist, c12Ev{st, 0})
+			scripted++
+			if os.Getenv("C12_DEBUG") != "" {
+				fmt.Println("C12DBG", st, "inflight:", net.inflight, "tunB:", len(net.tunLog["b"]), "frames:", len(c12RelayFrames(net)))
+			}
+		}
+		judge(net, hist)
+		seenMarker := false
+		for _, p := range net.tunLog["b"] {
+			if bytes.Contains(p, []byte(markers[0])) {
+				seenMarker = true
+			}
+		}
+		c.Require(seenMarker, "scripted hostile-relay history %v never delivered the relayed packet", script)
+		net.close()
+	}
+	c.Set("scripted_hostile_relay_steps", scripted)
 	depth := mc.Pick(c, 5, 7)
 	res := mc.BFSReplay(c, mc.BFSConfig[c12Ev]{
 		MaxDepth: depth, Workers: 1, Stop: c.OutOfTime,
@@ -327,6 +458,18 @@ func c12Wire(t *testing.T, c *mc.Check) (int64, int64) {
 			for i := range net.inflight {
 				menu = append(menu, c12Ev{"drop", i})
 			}
+			rew := 0
+			for _, e := range hist {
+				if e.Kind == "rewrap" {
+					rew++
+				}
+			}
+			if rew < 2 {
+				for i := range c12RelayFrames(net) {
+					menu = append(menu, c12Ev{"rewrap", i})
+				}
+			}
+			key += fmt.Sprintf("|rewraps=%d frames=%d", rew, len(c12RelayFrames(net)))
 			return key, menu
 		},
 	})
